@@ -565,10 +565,16 @@ Definition cg_read_basket (evs : list (list cluster)) : option cgarr :=
 
 (* type of ak.concatenate of the selected basket arrays: one record type if they all agree, else a union *)
 Inductive cgtype := CgRec (has_y : bool) | CgUnion (alts : list bool).
+(* the distinct alternatives, in order of first appearance (awkward merges equal forms as it goes) *)
+Fixpoint dedup_first (seen : list bool) (l : list bool) : list bool :=
+  match l with
+  | [] => []
+  | b :: r => if existsb (Bool.eqb b) seen then dedup_first seen r else b :: dedup_first (b :: seen) r
+  end.
 Definition cg_concat_type (flags : list bool) : cgtype :=
   match flags with
   | [] => CgUnion []
-  | b :: r => if forallb (Bool.eqb b) r then CgRec b else CgUnion (nodup Bool.bool_dec flags)
+  | b :: r => if forallb (Bool.eqb b) r then CgRec b else CgUnion (dedup_first [] flags)
   end.
 
 Definition cg_form (has_y : bool) : form :=
